@@ -71,6 +71,7 @@ class Gen:
         out = []
         u = self.uniq()
         ns = r.choice([NS1, NS1, NS2])
+        self.assocs = self.instances_of(NS1, "VAssoc")
 
         def add(fam, label, fn):
             out.append((fam, label, fn))
@@ -231,7 +232,7 @@ class Gen:
             CIMInstance("VNoSuch", properties=[CIMProperty("s", "q")],
                         path=_ipath("VNoSuch", ns, k=Uint32(1)))))
         # modify association instances (incl. multi-namespace ones)
-        for ap in self.instances_of(NS1, "VAssoc")[:6]:
+        for ap in self.assocs[:6]:
             ai = CIMInstance(ap.classname, properties=[
                 CIMProperty("note", "m%d" % u)], path=ap.copy())
             add("ModifyInstance", "assoc", lambda ai=ai: c.ModifyInstance(ai))
@@ -267,7 +268,7 @@ class Gen:
                 namespace=NS1))
         add("add_cimobjects", "single-assoc-in-one-namespace-only",
             lambda: c.add_cimobjects(orphan, namespace=NS1))
-        for ap in self.instances_of(NS1, "VAssoc"):
+        for ap in self.assocs:
             refs_ns2 = any(isinstance(v, CIMInstanceName) and
                            (v.namespace or "").lower() == NS2.lower()
                            for v in ap.keybindings.values())
@@ -337,6 +338,58 @@ class Gen:
                             "Caption", "c")], path=nspath(NS1)))))
         out.append(("remove_namespace", "namespace-with-provider-instance",
                     lambda: c.remove_namespace("root/nsp%d" % max(1, u - 1))))
+        out.append(("CreateInstance", "CIM_Namespace-second-interop",
+                    lambda: c.CreateInstance(nsinst("root/interop"),
+                                             namespace="interop")))
+        out.append(("CreateInstance", "CIM_Namespace-undeclared-property",
+                    lambda: c.CreateInstance(CIMInstance(
+                        "CIM_Namespace", properties=list(
+                            nsinst("root/nspu%d" % u).properties.values()) +
+                        [CIMProperty("NoSuchProp", "x")]),
+                        namespace="interop")))
+        out.append(("CreateInstance", "CIM_Namespace-not-interop-namespace",
+                    lambda: c.CreateInstance(nsinst("root/nspn%d" % u),
+                                             namespace=NS1)))
+        # Spec case (MockAtomicImpl, CreateNamespaceInstance): the duplicate
+        # check of the default provider comes AFTER the namespace was added;
+        # it can only fire in the state "the CIM_Namespace instance exists,
+        # its namespace does not".  Two routes into that state, then the
+        # CreateInstance with the same keys as the next call.
+        name = "root/nss%d" % u
+
+        def final(nm):
+            return ("CreateInstance",
+                    "CIM_Namespace-instance-exists-namespace-missing",
+                    lambda: c.CreateInstance(nsinst(nm), namespace="interop"))
+
+        def add_directly():
+            self.force = [final(name)]
+            inst = nsinst(name)
+            inst.path = nspath(name)
+            c.add_cimobjects(inst, namespace="interop")
+
+        def remove():
+            self.force = [final(name)]
+            c.remove_namespace(name)
+
+        def create_first():
+            self.force = [("remove_namespace",
+                           "namespace-with-provider-instance", remove)]
+            c.CreateInstance(nsinst(name), namespace="interop")
+        for _ in range(2):
+            out.append(("add_cimobjects",
+                        "CIM_Namespace-instance-without-namespace",
+                        add_directly))
+        for _ in range(4):
+            out.append(("CreateInstance",
+                        "CIM_Namespace-valid-then-namespace-removed",
+                        create_first))
+        # ... and from wherever the history already is in that state
+        existing = [n.lower() for n in c.namespaces]
+        for p in c.cimrepository.get_instance_store("interop").iter_names():
+            if p.classname.lower() == "cim_namespace" and \
+                    p.keybindings["Name"].strip("/").lower() not in existing:
+                out.append(final(p.keybindings["Name"]))
         return out
 
     # -- batches -------------------------------------------------------------------
@@ -443,6 +496,91 @@ class Gen:
                     lambda: c.add_cimobjects(good[0], namespace=BADNS)))
         out += self.schema_classes(ns, u)
         out += self.id_keyed_association(u)
+        out += self.outside_namespace_batches(ns, u)
+        return out
+
+    NS_INSTANCE_MOF = (
+        'instance of CIM_Namespace { Name = "%s"; '
+        'CreationClassName = "CIM_Namespace"; '
+        'ObjectManagerName = "FakeObjectManager"; '
+        'ObjectManagerCreationClassName = "CIM_ObjectManager"; '
+        'SystemName = "MockSystem_WBEMServerTest"; '
+        'SystemCreationClassName = "CIM_ComputerSystem"; };')
+
+    def outside_namespace_batches(self, ns, u):
+        """Spec case (MockAtomicImpl, batchns): MOF batches whose productions
+        write OUTSIDE the target namespace of the call before (and after) the
+        invalid production.  Three routes: `#pragma namespace` into another
+        existing namespace; an association instance with a reference into
+        another namespace (shadow copy there); with the namespace provider,
+        an `instance of CIM_Namespace` that creates a namespace (and
+        productions compiled into it)."""
+        c, r = self.conn, self.rng
+        other = NS2 if ns == NS1 else NS1
+        routes = ["pragma-namespace", "cross-namespace-association"]
+        if "interop" in [n.lower() for n in c.namespaces]:
+            routes += ["namespace-instance", "namespace-instance"]
+        route = r.choice(routes)
+        target = ns
+        fmt = dict(u=u, kk=400 + 10 * u)
+        if route == "pragma-namespace":
+            body = [p % dict(fmt, j=j, kk=fmt["kk"] + j) for j, p in
+                    enumerate(r.sample(self.GOOD_MOF, r.randint(1, 3)))]
+            body = [b.replace("VM%d_" % u, "VMO%d_" % u).replace(
+                "VMQ", "VMOQ").replace("VMS", "VMOS") for b in body]
+            prods = ['#pragma namespace ("%s")' % other] + body
+            if r.random() < 0.5:
+                prods.append('#pragma namespace ("%s")' % ns)
+        elif route == "cross-namespace-association":
+            used = set()
+            for ap in self.assocs:
+                lp, rp = ap.keybindings["left"], ap.keybindings["right"]
+                if (rp.namespace or "").lower() == NS2.lower():
+                    used.add(int(lp.keybindings["k"]))
+            # VA.k=1,2 are the instances whose creation class is VA itself
+            free = [k for k in (1, 2) if k not in used] or [1]
+            prods = []
+            for k in r.sample(free, min(len(free), r.randint(1, 2))):
+                prods.append(
+                    'instance of VAssoc { left = "%s:VA.k=%d"; '
+                    'right = "%s:VX.name=\\"x1\\",n=1"; note = "mb%d"; };'
+                    % (NS1, k, NS2, u))
+            if r.random() < 0.5:
+                prods.append(self.GOOD_MOF[0] % dict(fmt, j=7))
+        else:
+            target = "interop"
+            newns = "root/mns%d" % u
+            prods = [self.NS_INSTANCE_MOF % newns]
+            if r.random() < 0.7:
+                prods += ['#pragma namespace ("%s")' % newns,
+                          'Qualifier Key : boolean = false, Scope(property, '
+                          'reference), Flavor(DisableOverride, ToSubclass);',
+                          'class VMN%d { [Key] uint32 k; string s; };' % u,
+                          'instance of VMN%d { k = 1; s = "n"; };' % u][
+                              :r.randint(2, 5)]
+        reason = r.choice(sorted(self.BAD_MOF) + ["none"])
+        pos = r.randint(0, len(prods))
+        if reason != "none":
+            prods.insert(pos, self.BAD_MOF[reason] % dict(u=u, j=9))
+        label = "outside-%s:%s@%d/%d" % (route, reason, pos, len(prods))
+        mof = "\n".join(prods)
+        out = [("compile_mof_string", label,
+                lambda: c.compile_mof_string(mof, namespace=target))]
+        # file variant: the second half of the productions sits in an include
+        # (files are written when the scenario is run)
+        d = os.path.join(self.workdir, "mofo%d" % u)
+        half = r.randint(0, len(prods))
+
+        def compile_file():
+            os.makedirs(d, exist_ok=True)
+            with open(os.path.join(d, "inc.mof"), "w") as f:
+                f.write("\n".join(prods[half:]) + "\n")
+            main = os.path.join(d, "main.mof")
+            with open(main, "w") as f:
+                f.write("\n".join(prods[:half]) +
+                        '\n#pragma include ("inc.mof")\n')
+            c.compile_mof_file(main, namespace=target, search_paths=[d])
+        out.append(("compile_mof_file", label, compile_file))
         return out
 
     def schema_classes(self, ns, u):
